@@ -692,6 +692,9 @@ func genReceiver(prop string) func(tier string, seed uint64, idx int) interface{
 			case k < 3 && e == nil: // QoS 1, maybe with DUP repeats
 				x.seq[1]++
 				op := Op{K: "pub", Topic: x.topic(), QoS: 1, PID: id, Size: x.size(), Seq: x.seq[1], NoWait: r.Bool(1, 2)}
+				// (the first copy the broker sees may already be a retransmission:
+				// the original was lost with an earlier connection)
+				op.Dup = r.Bool(1, 6)
 				cl.Ops = append(cl.Ops, op)
 				for r.Bool(1, 4) {
 					d := op
@@ -701,6 +704,7 @@ func genReceiver(prop string) func(tier string, seed uint64, idx int) interface{
 			case k < 6 && e == nil: // open a QoS 2 exchange
 				x.seq[1]++
 				op := Op{K: "pub", Topic: x.topic(), QoS: 2, PID: id, Size: x.size(), Seq: x.seq[1], NoRel: true, NoWait: r.Bool(1, 2)}
+				op.Dup = r.Bool(1, 6)
 				cl.Ops = append(cl.Ops, op)
 				open[id] = &ex{op: op, open: true}
 				order = append(order, id)
